@@ -7,6 +7,7 @@ folded trace is a path of `Pool.step` ending in a quiescent-complete state. Beca
 result lines are schedule-independent verdicts plus counts that both sides derive from the same execution.
 """
 import os
+import re
 import vlib
 
 ID = "C17"
@@ -354,6 +355,45 @@ def static_checks():
         k = (h + c).count(f"NANO_VERIF_POOL({ev},")
         if k != n:
             bad.append(f"hook H1: event `{ev}` is emitted at {k} places (the trace automaton of Pool.checkTrace expects {n})")
+    bad += guarded_twins(h, "parallel.h") + guarded_twins(c, "parallel.cpp")
+    return bad
+
+
+def _norm(s):
+    return re.sub(r"\s+", "", s)
+
+
+def guarded_twins(text, name):
+    """hook H1 is add-only, so the one place where an event has to be emitted from INSIDE an existing expression (the
+    predicate of the worker's condition-variable wait) exists twice: `#ifdef NANO_VERIF <hooked copy> #else <original>
+    #endif`. Every check builds with the guard on and would never see an edit of the original branch, so the two branches
+    must stay the same code: the hooked copy with its NANO_VERIF_POOL(...) statements removed and `const auto ready = E;
+    ...; return ready;` folded back to `return E;` must equal the original (whitespace-insensitive). Any other
+    `#ifdef NANO_VERIF ... #else` with code in the #else branch is reported as well (none is expected)."""
+    bad = []
+    blocks, cur = [], None          # (hooked lines, original lines) of every `#ifdef NANO_VERIF … #else … #endif`
+    for line in text.splitlines():
+        t = line.strip()
+        if t.startswith("#ifdef NANO_VERIF"):
+            cur = [[], None]
+        elif cur is not None and t.startswith("#else"):
+            cur[1] = []
+        elif cur is not None and t.startswith("#endif"):
+            if cur[1] is not None:
+                blocks.append(("\n".join(cur[0]), "\n".join(cur[1])))
+            cur = None
+        elif cur is not None:
+            (cur[0] if cur[1] is None else cur[1]).append(line)
+    for hooked, orig in blocks:
+        if not orig.strip() or orig.lstrip().startswith("#define NANO_VERIF_POOL"):
+            continue
+        hk = re.sub(r"NANO_VERIF_POOL\((?:[^()]|\((?:[^()]|\([^()]*\))*\))*\);", "", hooked)
+        mm = re.search(r"const auto ready\s*=\s*(.*?);", hk, re.S)
+        if mm:
+            hk = hk.replace(mm.group(0), "").replace("return ready;", "return " + mm.group(1).strip() + ";")
+        if _norm(hk) != _norm(orig):
+            bad.append(f"{name}: the code under `#ifdef NANO_VERIF` (what every check builds) and its `#else` twin (what a build "
+                       f"without the guard runs) differ: hooked=`{' '.join(hk.split())[:200]}` original=`{' '.join(orig.split())[:200]}`")
     return bad
 
 
